@@ -2442,6 +2442,11 @@ hsStateDetermined:
                     psTraceErrr("Invalid length of handshake fragment\n");
                     return MATRIXSSL_ERROR;
                 }
+                if (fragLen == 0)
+                {
+                    /* An empty fragment carries nothing: ignore */
+                    return MATRIXSSL_SUCCESS;
+                }
 /*
                 Have a fragmented message here.  Allocate if first time
                 seen and assign msn.  Can only deal with single fragmented
